@@ -190,4 +190,13 @@ CHECKS['C15'] = dict(title='Rolling log files keep the most recent messages, com
     bound={'quick': 'histories <= 6 events over {m1,m3,m6,R}', 'thorough': 'histories <= 8 over {m1,m3,m6,R}; histories <= 6 over {m1,m3,m6,R,C, mL!k for k = 0..2}'},
     assumptions=['every message is flushed by std::endl before the call returns, so every point between two events is a crash point', 'messages are unique (sequence digit + letters), lengths 1/3/6: longer than, equal to and shorter than the small limits'])
 
+CHECKS['C14'] = dict(title='A log message reaches exactly the destinations whose filters it passes', engine='xenum',
+    harness=['harness/c14_filters.cpp'], flags='asan', lib=True, level='model_checking', deadline={'quick': 240, 'thorough': 2400}, hang_s=60,
+    technique='bounded-exhaustive enumeration of filter-setting histories (every filter type/level/class subset, every duplicate policy at every position, object creation order) x all (level, class) messages x all ways of addressing the logs, executed on the real Logging singleton against a reference filter model',
+    level_text='every single filter setting (18 level settings, all 63 class subsets in 3 casings) on a log and on a destination; every history of <= 3 (quick) / <= 4 (thorough) settings over 25 representative settings on a log and one of its destinations, with the duplicate policy (ignore/replace/exception) set at every position and a second log created before or after the policy is set; every one of the 36 (level, class) messages sent by id mask (single, both, with an unused bit) and by name; deliveries to the filtered destination, its sibling and the other log compared with the reference; level pre-check compared with the full filters',
+    level_note='trusts the 15-line reference (value in effect per filter type under the policy; conjunction of filters); the undefined level/class are outside; a destination belongs to one log',
+    rule='history = sequence of (target, setting) steps + policy + policy position + creation order (odometer); states = histories executed, transitions = message deliveries through Logging::log; non-trivial = setting sequences',
+    bound={'quick': 'part A complete; histories of 2 and 3 settings (<= 2 on the log, <= 1 on the destination)', 'thorough': 'histories up to 4 settings (<= 3 on the log, <= 2 on the destination; 4-step histories only with a duplicate filter type)'},
+    assumptions=['levels and classes 1..6 (undefined excluded)', 'class lists are written without blanks around the commas'])
+
 NOT_APPLICABLE = [e for e in NOT_APPLICABLE if e['property_id'] not in CHECKS]
